@@ -19,6 +19,15 @@ cleanup() { git -C /repo worktree remove --force "$WT" >/dev/null 2>&1; rm -rf "
 trap cleanup EXIT INT TERM
 rmdir "$WT"; git -C /repo worktree add -q --detach "$WT" HEAD || exit 3
 
+# patches were written against the /repo commit of their wave; later fix: commits may have moved their context
+apply_patch() {
+  git -C "$WT" apply "$DIR/patch.diff" 2>/dev/null && return 0
+  git -C "$WT" apply --3way "$DIR/patch.diff" >/dev/null 2>&1 || return 1
+  if git -C "$WT" diff --name-only --diff-filter=U | grep -q .; then return 1; fi
+  git -C "$WT" reset -q
+  return 0
+}
+
 case "$MODE" in
 validate)
   # the demonstration goes into a new sub-directory package (the test packages of the repository root need a
@@ -32,7 +41,7 @@ validate)
   echo "demonstration tests: $NAMES (in $SUB)"
   (cd "$WT/$SUB" && $GO test -vet=off -count=1 -run "^($NAMES)\$" . >"$WT/.clean.log" 2>&1); C=$?
   echo "clean tree: demonstration exit $C"
-  git -C "$WT" apply "$DIR/patch.diff" || { echo "patch does not apply"; exit 3; }
+  apply_patch || { echo "patch does not apply"; exit 3; }
   (cd "$WT" && $GO build ./... && $GO test -vet=off -count=1 -exec true ./... >/dev/null 2>&1 && $GO test -vet=off -count=1 ./bsonkit/... ./dbkit/... >"$WT/.suite.log" 2>&1); S=$?
   echo "patched tree: build + runnable suite exit $S"
   (cd "$WT/$SUB" && $GO test -vet=off -count=1 -run "^($NAMES)\$" . >"$WT/.patched.log" 2>&1); P=$?
@@ -43,7 +52,7 @@ validate)
   ;;
 run)
   PROP=$3; B=${4:-40}; TIER=${5:-quick}
-  git -C "$WT" apply "$DIR/patch.diff" || { echo "patch does not apply"; exit 3; }
+  apply_patch || { echo "patch does not apply"; exit 3; }
   T=$(mktemp -d /var/tmp/verif-seeded-out-XXXXXX)
   cd /verif && VERIF_REPO="$WT" VERIF_EVIDENCE_DIR=$T/evidence VERIF_REPLAY_DIR=$T/replays VERIF_SEED=${VERIF_SEED:-1} \
     ./verif check "$PROP" --tier "$TIER" --budget "$B" 2>&1 | grep -E "^(C[0-9]+ |violation|VIOLATION|VERIF-FAULT|KNOWN|NOTE|worker|HARNESS)" | cut -c1-900 | head -${SEEDED_LINES:-12}
